@@ -158,4 +158,65 @@ Clauses_parse_uc(ev) ==
                                                /\ IsInj(got.obs) /\ IsInj(got.samp),
        C17_cells_are_counts_of_records |->
           \A i \in 1..Len(got.obs), j \in 1..Len(got.samp) : got.mat[i][j] = R(UcCount(recs, got.obs[i], got.samp[j]))]
+
+\* ------------------------------------------------------------------ C15 validator
+\* The driver wrote the table as JSON or HDF5 with the library, applied args.muts (0..2 structural
+\* mutations from the grammar below) to the real file, and classified the mutated file with an
+\* independent reader into obs.facts.  obs.valid = what `validate-table` reported (a crash or a
+\* non-zero exit counts as "not reported valid").
+JsonMutations ==
+  {"del:id", "del:format", "del:format_url", "del:type", "del:generated_by", "del:date", "del:rows", "del:columns",
+   "del:matrix_type", "del:matrix_element_type", "del:shape", "del:data",
+   "rename:rows", "rename:columns", "rename:shape", "rename:data", "rename:type", "rename:matrix_element_type",
+   "shape:rows+1", "shape:rows-1", "shape:cols+1", "shape:cols-1",
+   "coord:row_out", "coord:col_out", "coord:negative", "coord:index_text", "coord:value_text", "coord:malformed",
+   "ids:dup_row", "ids:dup_col", "ids:blank_row", "ids:blank_col", "ids:del_row_id", "ids:del_col_md",
+   "md:row_text", "md:col_list", "md:row_number",
+   "type:matrix_dense", "type:element_int", "type:element_unicode", "type:element_bogus",
+   "hdr:bad_date", "hdr:bad_format", "hdr:bad_url", "hdr:bad_type"}
+Hdf5Mutations ==
+  {"delattr:id", "delattr:type", "delattr:format-url", "delattr:format-version", "delattr:generated-by",
+   "delattr:creation-date", "delattr:shape", "delattr:nnz",
+   "delgrp:observation/matrix", "delgrp:sample/matrix", "delgrp:observation/metadata", "delgrp:sample/group-metadata",
+   "delds:observation/ids", "delds:sample/ids", "delds:observation/matrix/data", "delds:observation/matrix/indices",
+   "delds:observation/matrix/indptr", "delds:sample/matrix/data", "delds:sample/matrix/indices", "delds:sample/matrix/indptr",
+   "rename:sample/ids", "rename:observation/matrix/data",
+   "shape:rows+1", "shape:rows-1", "shape:cols+1", "shape:cols-1",
+   "coord:obs_index_out", "coord:samp_index_out", "coord:obs_index_negative",
+   "ids:dup_obs", "ids:dup_samp", "ids:blank_obs", "ids:blank_samp",
+   "type:data_int", "type:indices_float", "type:nnz_text",
+   "md:wrong_length", "hdr:bad_date", "hdr:bad_url", "hdr:bad_version", "hdr:bad_type"}
+
+WellFormedFacts(f) ==
+  /\ f.parse_ok /\ f.required_present /\ f.shape_matches_ids /\ f.coords_in_shape
+  /\ f.element_types_ok /\ f.ids_nonempty_unique /\ f.metadata_object_or_null
+
+VocabularyTypes == {"OTU table", "Pathway table", "Function table", "Ortholog table", "Gene table",
+                    "Metabolite table", "Taxon table"}
+
+Clauses_validate(ev) ==
+  LET src == ev.pre[ev.recv]
+      a == ev.args
+      f == ev.obs.facts
+      indomain == InDomainC01(src) /\ src.type \in VocabularyTypes /\ ev.obs.wrote = "ok"
+  IN IF ~indomain THEN [C15_out_of_domain |-> TRUE]
+     ELSE
+     [C15_library_written_file_is_valid |-> (a.muts = <<>>) => (ev.obs.valid /\ WellFormedFacts(f)),
+      C15_never_valid_when_required_item_missing |-> (f.parse_ok /\ ~f.required_present) => ~ev.obs.valid,
+      C15_never_valid_when_shape_disagrees_with_ids |->
+         (f.parse_ok /\ f.required_present /\ ~f.shape_matches_ids) => ~ev.obs.valid,
+      C15_never_valid_when_coordinate_outside_shape |->
+         (f.parse_ok /\ f.required_present /\ ~f.coords_in_shape) => ~ev.obs.valid,
+      C15_never_valid_when_element_has_wrong_type |->
+         (f.parse_ok /\ f.required_present /\ ~f.element_types_ok) => ~ev.obs.valid,
+      C15_never_valid_when_id_empty_or_duplicated |->
+         (f.parse_ok /\ f.required_present /\ ~f.ids_nonempty_unique) => ~ev.obs.valid,
+      C15_never_valid_when_metadata_not_object_or_null |->
+         (f.parse_ok /\ f.required_present /\ ~f.metadata_object_or_null) => ~ev.obs.valid,
+      C15_never_valid_when_unparsable |-> ~f.parse_ok => ~ev.obs.valid,
+      C15_valid_numeric_json_loads_as_declared |->
+         (a.fmt = "json" /\ ev.obs.valid /\ f.numeric) =>
+            /\ ev.obs.loaded = "ok"
+            /\ ev.obs.got.obs = ev.obs.declared.obs /\ ev.obs.got.samp = ev.obs.declared.samp
+            /\ ev.obs.got.mat = ev.obs.declared.mat]
 =============================================================================
